@@ -216,6 +216,14 @@ func (p *ProofD) correctResponseSizes(pk *gabikeys.PublicKey) bool {
 // reconstructZ reconstructs Z from the information in the proof and the
 // provided public key.
 func (p *ProofD) reconstructZ(pk *gabikeys.PublicKey) (*big.Int, error) {
+	// An attribute is either disclosed or hidden, never both: otherwise the holder could
+	// report an arbitrary value x as disclosed and put the remainder m-x in the response.
+	for i := range p.ADisclosed {
+		if _, hidden := p.AResponses[i]; hidden {
+			return nil, errors.New("attribute is both disclosed and hidden")
+		}
+	}
+
 	// known = Z / ( prod_{disclosed} R_i^{a_i} * A^{2^{l_e - 1}} )
 	numerator := new(big.Int).Lsh(big.NewInt(1), pk.Params.Le-1)
 	numerator.Exp(p.A, numerator, pk.N)
